@@ -10,6 +10,8 @@ import (
 	"github.com/spali/go-rscp/rscp"
 )
 
+type verifSwitch bool
+
 func cksumValue(k string) interface{} {
 	b := true
 	switch k {
@@ -33,6 +35,8 @@ func cksumValue(k string) interface{} {
 		return []bool{true}
 	case "7":
 		return func() bool { return true }
+	case "8":
+		return verifSwitch(true) // a defined type whose underlying type is bool: not a bool
 	}
 	return 0
 }
@@ -51,8 +55,8 @@ func init() {
 	props["C16"] = &prop{
 		rule: "every subset of the four required fields x checksum option of 10 Go kinds (nil, true, false, int, string, float64, struct, *bool, slice, func) x key/user/password lengths {0,1,31,32,33,64,255,70000} x numeric options {0, negative, 1, max} (sampled cross product + all single-factor variations); non-trivial = all four required fields present; distinct by case line",
 		gen: func(tier string, r *rng, emit func(string)) {
-			lens := []int{0, 1, 31, 32, 33, 64, 255, 70000}
-			cks := []string{"nil", "true", "false", "1", "2", "3", "4", "5", "6", "7"}
+			lens := []int{0, 1, 31, 32, 33, 64, 255, 65535, 65536, 65537, 70000, 131072}
+			cks := []string{"nil", "true", "false", "1", "2", "3", "4", "5", "6", "7", "8"}
 			durs := []int64{0, -1, 1, math.MaxInt64, math.MinInt64, 1000000000, 1000000001, 50000000}
 			ports := []int{0, 1, 5033, 65535}
 			rbufs := []int{0, 1, 2, 2048, 2049, 2050, 65535}
@@ -76,7 +80,7 @@ func init() {
 			for _, lk := range lens {
 				for _, lu := range lens {
 					for _, lp := range lens {
-						if tier != "thorough" && lk != 70000 && lu != lp && r.intn(3) != 0 {
+						if tier != "thorough" && lk < 65535 && lu != lp && r.intn(3) != 0 {
 							continue
 						}
 						emit(line(str(9), str(lu), str(lp), str(lk), ports[r.intn(4)], durs[r.intn(8)], durs[r.intn(8)], durs[r.intn(8)], durs[r.intn(8)], cks[r.intn(3)], rbufs[r.intn(7)]))
@@ -104,9 +108,9 @@ func init() {
 					if r.intn(5) == 0 {
 						return 0
 					}
-					return lens[r.intn(7)]
+					return lens[r.intn(len(lens))]
 				}
-				emit(line(str(l()), str(l()), str(l()), str(l()), r.intn(65536)*r.intn(2), durs[r.intn(8)]+int64(r.intn(3))-1, durs[r.intn(8)], durs[r.intn(8)], durs[r.intn(8)], cks[r.intn(10)], r.intn(65536)*r.intn(2)))
+				emit(line(str(l()), str(l()), str(l()), str(l()), r.intn(65536)*r.intn(2), durs[r.intn(8)]+int64(r.intn(3))-1, durs[r.intn(8)], durs[r.intn(8)], durs[r.intn(8)], cks[r.intn(len(cks))], r.intn(65536)*r.intn(2)))
 			}
 		},
 		run: func(c string) string {
